@@ -253,6 +253,24 @@ pub fn run(sink: &mut Sink, _prop: &str, thorough: bool, seed: u64) {
     for s in ["", "\n", "1\n2\n", "1\r\n2\r\n\r\n", "\n\n[1]\n\n\"a\"\n\n", "1\nx", "[1,\n2]\n\n[3,\n x", "\"\u{e9}\"\n\"\u{e9}\u{1f600}\" \n x", "1\n\n2\n\n\u{1}", "null\ntrue\rfalse\r\nnul", "1\n2x", "{\"a\":\n1}\n{\"a\"\n:x}"] {
         emit_lcs(sink, &cfg, s.as_bytes(), 6, &mut r, "corpus");
     }
+    // streams whose second / third item runs into the nesting limit: the error sits at the 128th opening bracket of THAT item (bracket or brace,
+    // levels on their own lines or not)
+    for first in ["1\n", "[[1]]\n{\"a\":[]} ", ""] {
+        for d in [127usize, 128, 129] {
+            for mix in 0..4 {
+                for sep in ["", "\n", "\r\n "] {
+                    let mut doc = first.as_bytes().to_vec(); let mut close: Vec<u8> = vec![];
+                    for i in 0..d {
+                        let obj = match mix { 0 => false, 1 => true, 2 => i == 127, _ => i % 2 == 0 };
+                        if i > 0 { doc.extend_from_slice(sep.as_bytes()); }
+                        if obj { doc.extend_from_slice(b"{\"a\":"); close.insert(0, b'}'); } else { doc.push(b'['); close.insert(0, b']'); }
+                    }
+                    doc.extend_from_slice(b"1"); doc.extend_from_slice(&close); doc.extend_from_slice(b"\n2");
+                    emit_lcs(sink, &cfg, &doc, 5, &mut r, "deep");
+                }
+            }
+        }
+    }
     for _ in 0..(if thorough { 3000 } else { 300 }) {
         let (toks, gaps, k) = stream_docs(&mut r);
         let doc = render(&toks, &gaps);
